@@ -59,6 +59,18 @@ CHECKS.update({
                 text="Real records and graphs (ragged, shadow names) are pushed through to_graph / stack / index / filter / to_networkx; TLC recomputes each right-hand side from the inputs with the TLA+ definitions and compares."),
 })
 
+CHECKS.update({
+    "C10": dict(level="model_checking", ref="6 C10",
+                technique="TLA+ model of the zero-order-hold selection (TrainableDelay: ZohWindow vs StaticWindow) enumerated exhaustively by TLC; every enumerated case replayed on the real TrainableDist.apply_delay",
+                text="All sender timelines / step times / delays / windows / skip of the bounded instance; the real apply_delay must return exactly `window` entries equal to the window a static delay d would give; the two classes in which it does not (skip tie, under-sized extension) were found by TLC on the model, reproduced on the code and are listed as known findings; any other disagreement is a violation."),
+    "C18": dict(level="model_checking", ref="6 C18",
+                technique="TLA+ solver state machine (Solvers) over all loss histories incl. NaN, checked by TLC and replayed on the real cem_update_mean_stdev; per-iteration traces of real cem_step/evo_step validated by SolversTrace",
+                text="Every loss history of the bounded instance is replayed exactly on rex.cem (best loss, best candidate, elite set); end-to-end CEM and evosax runs with NaN regions are validated iteration by iteration (bounds, monotone best, best = min finite so far, best member attained it)."),
+    "C19": dict(level="model_checking", ref="6 C19",
+                technique="TLA+ state machine of the wrapper stack (RlWrappers) over all reward/termination histories, replayed on a real wrapped Environment over a compiled graph",
+                text="All histories of length L: after every step the observation, flags, logged episode return/length, timestep, graph step, running moments (exact integer sums) and the supervisor output in the graph buffer must equal the model; invariants LogAccounting, AutoResetSemantics, MomentsOfEverythingSeen."),
+})
+
 NA = {
     "C11": "numeric claim about one pure function (interpolation exactness, continuity, gradient); no state, schedule or history for a TLA+ model to decide (DESIGN 7)",
     "C15": "numeric/statistical claims about pure distribution functions (quantiles, CDF agreement, estimator normalisation) (DESIGN 7)",
@@ -66,7 +78,7 @@ NA = {
     "C20": "equality of two floating-point forward passes over all observations and network shapes; pure numeric (DESIGN 7)",
 }
 
-PENDING = {'C01': 'check under construction in this round; will be claimed once its TLA+ specification and conformance harness are committed', 'C07': 'check under construction in this round; will be claimed once its TLA+ specification and conformance harness are committed', 'C08': 'check under construction in this round; will be claimed once its TLA+ specification and conformance harness are committed', 'C09': 'check under construction in this round; will be claimed once its TLA+ specification and conformance harness are committed', 'C10': 'check under construction in this round; will be claimed once its TLA+ specification and conformance harness are committed', 'C12': 'check under construction in this round; will be claimed once its TLA+ specification and conformance harness are committed', 'C13': 'check under construction in this round; will be claimed once its TLA+ specification and conformance harness are committed', 'C14': 'check under construction in this round; will be claimed once its TLA+ specification and conformance harness are committed', 'C16': 'check under construction in this round; will be claimed once its TLA+ specification and conformance harness are committed', 'C18': 'check under construction in this round; will be claimed once its TLA+ specification and conformance harness are committed', 'C19': 'check under construction in this round; will be claimed once its TLA+ specification and conformance harness are committed'}
+PENDING = {} and {'C01': 'check under construction in this round; will be claimed once its TLA+ specification and conformance harness are committed', 'C07': 'check under construction in this round; will be claimed once its TLA+ specification and conformance harness are committed', 'C08': 'check under construction in this round; will be claimed once its TLA+ specification and conformance harness are committed', 'C09': 'check under construction in this round; will be claimed once its TLA+ specification and conformance harness are committed', 'C10': 'check under construction in this round; will be claimed once its TLA+ specification and conformance harness are committed', 'C12': 'check under construction in this round; will be claimed once its TLA+ specification and conformance harness are committed', 'C13': 'check under construction in this round; will be claimed once its TLA+ specification and conformance harness are committed', 'C14': 'check under construction in this round; will be claimed once its TLA+ specification and conformance harness are committed', 'C16': 'check under construction in this round; will be claimed once its TLA+ specification and conformance harness are committed', 'C18': 'check under construction in this round; will be claimed once its TLA+ specification and conformance harness are committed', 'C19': 'check under construction in this round; will be claimed once its TLA+ specification and conformance harness are committed'}
 
 
 def build(claimed=None):
